@@ -93,12 +93,10 @@ func (r *reader) Int64() (int64, error) {
 	return int64(v), nil
 }
 func (r *reader) Uint8() (uint8, error) {
-	n, err := r.r.Read(r.buf[0:1])
-	if err != nil {
+	// NOTE: ReadFull, like the wider reads below: a Reader may return its final
+	//       byte together with io.EOF, and that byte has to be used first.
+	if _, err := io.ReadFull(r.r, r.buf[0:1]); err != nil {
 		return 0, err
-	}
-	if n < 1 {
-		return 0, io.EOF
 	}
 	return r.buf[0], nil
 }
